@@ -963,9 +963,19 @@ impl Printer {
                 let mut last = self.tok("}");
                 if let Some(el) = el {
                     self.tok("else");
-                    self.tok("{");
-                    self.block_body(el);
-                    last = self.tok("}");
+                    // `else if ..` instead of `else { if .. }` for every other such node (both
+                    // spellings of the same tree are exercised)
+                    let inner_if = match el.as_slice() {
+                        [Stmt { kind: StmtKind::Expr(inner), .. }] if matches!(inner.kind, ExprKind::If(..)) && self.out.len() % 2 == 1 => Some(inner),
+                        _ => None,
+                    };
+                    if let Some(inner) = inner_if {
+                        last = self.expr(inner).1;
+                    } else {
+                        self.tok("{");
+                        self.block_body(el);
+                        last = self.tok("}");
+                    }
                 }
                 (a, last)
             }
@@ -1008,6 +1018,9 @@ impl Printer {
                     }
                     self.expr_top(x);
                 }
+                if !args.is_empty() && self.out.len() % 3 == 0 {
+                    self.tok(",");
+                }
                 let b = self.tok(")");
                 (a, b)
             }
@@ -1047,6 +1060,9 @@ impl Printer {
                     }
                     self.expr_top(x);
                 }
+                if !es.is_empty() && self.out.len() % 3 == 0 {
+                    self.tok(",");
+                }
                 let b = self.tok("]");
                 (a, b)
             }
@@ -1074,6 +1090,10 @@ impl Printer {
                     }
                     self.expr_top(x);
                 }
+                // a trailing comma now and then
+                if es.len() >= 2 && self.out.len() % 3 == 0 {
+                    self.tok(",");
+                }
                 let b = self.tok(")");
                 (a, b)
             }
@@ -1084,9 +1104,20 @@ impl Printer {
                     if i > 0 {
                         self.tok(",");
                     }
-                    self.tok(f);
-                    self.tok(":");
-                    self.expr_top(x);
+                    // field shorthand `S { f }` for `S { f: f }` (every other occurrence)
+                    let shorthand = matches!(&x.kind, ExprKind::Var(v) if v == f) && self.out.len() % 2 == 0;
+                    let k = self.tok(f);
+                    if shorthand {
+                        if x.id < self.spans.len() {
+                            self.spans[x.id] = (k, k);
+                        }
+                    } else {
+                        self.tok(":");
+                        self.expr_top(x);
+                    }
+                }
+                if !fs.is_empty() && self.out.len() % 3 == 0 {
+                    self.tok(",");
                 }
                 self.tok("}");
                 (a, a)
